@@ -149,7 +149,10 @@ def consistency(chk, name, kw, g, label):
             continue
         sl = (float(g.local_depth(zj - e)) - float(g.local_depth(zj - 2 * e))) / e
         sr = (float(g.local_depth(zj + 2 * e)) - float(g.local_depth(zj + e))) / e
-        if abs(math.atan(sl) - math.atan(sr)) > 1e-3:
+        # the one-sided difference quotients see the curvature of the neighbouring arc: d(angle) ~ arc length / radius
+        rmin = min([r for r in (g.r1, g.r2, g.r3, g.r4) if r > 0] or [size])
+        allowed = 1e-3 + 6 * e * math.sqrt(1 + max(abs(sl), abs(sr)) ** 2) / rmin
+        if abs(math.atan(sl) - math.atan(sr)) > allowed:
             return chk.fail('tangency', f"{name}{kw} ({label}): kink at junction {j}: slopes {sl:.6g} | {sr:.6g}", data)
     # the given values are reproduced exactly
     for k, v in kw.items():
@@ -206,6 +209,67 @@ def optional(name):
 def same_contour(a, b, tol):
     A, B = np.asarray(a.contour_points), np.asarray(b.contour_points)
     return A.shape == B.shape and np.max(np.abs(A - B)) <= tol
+
+
+def boundary_and_order_cases(chk, rng):
+    """(a) the same number given as flank width, then height, then length (same other values), in every order: each groove reproduces ITS flank;
+       (b) box-like grooves whose even ground width is exactly 0 (the flanks' ground corners touch): found by bisection over the flank angle,
+           rebuilt from (usable_width, even_ground_width=0.0): same contour"""
+    import itertools
+    n = 0
+    flanked = [('FalseRoundGroove', dict(depth=31.8646, r1=5, r2=38)), ('FalseRoundGroove', dict(depth=31.8646, r1=5, r2=38, pad_angle=30)),
+               ('Oval3RadiiFlankedGroove', dict(depth=41.1, r1=6, r2=23.5, r3=183, usable_width=74.2506498 * 2))]
+    for name, base in flanked:
+        for v in (3.0, 4.0, rng.uniform(2.0, 6.0)):
+            for order in itertools.permutations(('flank_width', 'flank_height', 'flank_length')):
+                for kind in order:
+                    kw = dict(base, **{kind: v})
+                    try:
+                        g = build(name, kw)
+                    except Exception:       # noqa  (this flank does not fit: nothing to compare)
+                        continue
+                    n += 1
+                    consistency(chk, name, kw, g, f"the number {v:.4g} given as {' then '.join(order)}")
+                    if chk.failures:
+                        return n
+    for name, base in (('BoxGroove', dict(depth=52, r1=15, r2=18, usable_width=185.29)), ('SwedishOvalGroove', dict(depth=20, r1=8, r2=10, usable_width=100)),
+                       ('HexagonalGroove', dict(depth=7.66025404, r1=3, r2=1, usable_width=18.84529946)), ('UpsetBoxGroove', dict(depth=30, r1=5, r2=3, usable_width=20)),
+                       ('ConstrictedBoxGroove', dict(depth=52, r1=15, r2=18, r4=10, usable_width=185.29, indent=10))):
+        lo, hi = 1.0, 89.0          # flank angle in degrees: small angle -> wide flanks -> negative even ground (rejected), large -> positive
+        def egw(fa):
+            try:
+                return build(name, dict(base, flank_angle=fa)).even_ground_width
+            except Exception:       # noqa
+                return None
+        if egw(hi) is None or egw(hi) <= 0:
+            continue
+        for _ in range(60):
+            mid = (lo + hi) / 2
+            e = egw(mid)
+            if e is None or e < 0:
+                lo = mid
+            else:
+                hi = mid
+        g = build(name, dict(base, flank_angle=hi))
+        size = max(g.usable_width, g.depth)
+        if abs(g.even_ground_width) > 1e-9 * size:
+            continue
+        kw0 = dict(base, even_ground_width=0.0)
+        n += 1
+        try:
+            g0 = build(name, kw0)
+        except Exception as e:      # noqa
+            chk.fail('subset-roundtrip', f"{name}{dict(base, flank_angle=hi)} has an even ground width of {g.even_ground_width:.2e}; rebuilt from usable_width and "
+                     f"even_ground_width=0.0 it is rejected: {type(e).__name__}: {e}", {'groove': name, 'kwargs': kw0})
+            return n
+        if not same_contour(g, g0, 1e-6 * size):
+            chk.fail('subset-roundtrip', f"{name}: the groove with touching ground corners rebuilt from (usable_width, even_ground_width=0.0) differs from the one "
+                     f"built with flank angle {hi!r}", {'groove': name, 'kwargs': kw0})
+            return n
+        consistency(chk, name, kw0, g0, "even ground width exactly 0")
+        if chk.failures:
+            return n
+    return n
 
 
 def run(chk):
@@ -288,6 +352,8 @@ def run(chk):
                                      {'groove': name, 'kwargs': kw2, 'second': kw3})
                             break
                         consistency(chk, name, kw3, g3, "rebuilt from another subset")
+    if not chk.failures:
+        built += boundary_and_order_cases(chk, rng)
     chk.cov['distinct_nontrivial'] += built
     chk.sample({'groove': 'FalseRoundGroove', 'kwargs': {'depth': 31.8646, 'r1': 5, 'r2': 38, 'flank_height': 7.037185254850074, 'pad_angle': 30}})
     chk.cov['rule'] = (f"{built} constructions: the catalogue (every solver-backed class x every defining subset listed) built in order {rounds} times with pad angles "
